@@ -112,6 +112,13 @@ def peel(p):
             p = p[3]
         elif p[0] == "try":
             p = p[1]
+            if p[0] == "alt":
+                # `(match x { V { f, .. } => Some(f), _ => None })?`: on the path that goes on, the value is the payload of the
+                # alternatives that are not None / Err
+                keep = [a for a in p[1] if not (a == ("path", "None") or (a[0] == "call" and last(a[1]) == "Err"))]
+                keep = [a[2][0] if a[0] == "call" and last(a[1]) in ("Some", "Ok") and len(a[2]) == 1 else a for a in keep]
+                if len(keep) == 1 and len(keep) < len(p[1]):
+                    p = keep[0]
         elif p[0] == "mcall" and p[1] in ("unwrap", "expect", "as_ref", "as_mut", "as_str", "as_slice", "borrow"):
             p = p[2]
         elif p[0] == "mcall" and p[1] in ("map_err", "context", "with_context", "or_else", "inspect_err"):
